@@ -73,6 +73,26 @@ fn big_input_faults(out: &mut Out) {
 						out.fail("reader_fault", "", format!("{what} ({len} bytes) from=detect to=json reader(caps {sched:?}) failing once {k} bytes were delivered: {p}"));
 					}
 				}
+				// the same fault as an error of another kind (what a decompressor,
+				// a socket or a device reports)
+				for flavour in [0u8, 2, 5, 100] {
+					let mut w = FaultWriter::new(None, vec![]);
+					let r = catch(|| {
+						let reader = PlainFault { inner: SchedReader::new(input, vec![], true, None), at: *k, flavour };
+						xt::translate_reader(reader, None, xt::Format::Json, &mut w)
+					});
+					let want = plain_error(flavour).to_string();
+					out.eval("reader_fault_plain_error", &format!("big {what} {k} {flavour}"), true);
+					let problem = match &r {
+						Err(p) => Some(format!("panicked: {p}")),
+						Ok(Ok(())) => Some("returned success".to_string()),
+						Ok(Err(e)) if !e.to_string().contains(want.as_str()) => Some(format!("error text lost the reader's message ({want:?}): {e}")),
+						Ok(Err(_)) => None,
+					};
+					if let Some(p) = problem {
+						out.fail("reader_fault", "", format!("{what} ({len} bytes) from=detect to=json, reader failing with the error {want:?} ({:?}) once {k} bytes were delivered: {p}", plain_error(flavour).kind()));
+					}
+				}
 			}
 		}
 	}
@@ -83,13 +103,29 @@ fn big_input_faults(out: &mut Out) {
 struct PlainFault {
 	inner: SchedReader,
 	at: usize,
-	os: bool,
+	/// 0 = OS error EIO, 1.. = bare kinds, 100 = UnexpectedEof WITH a text
+	flavour: u8,
+}
+
+fn plain_error(flavour: u8) -> std::io::Error {
+	use std::io::ErrorKind as K;
+	match flavour {
+		0 => std::io::Error::from_raw_os_error(5),
+		1 => K::TimedOut.into(),
+		2 => K::ConnectionReset.into(),
+		3 => K::ConnectionAborted.into(),
+		4 => K::BrokenPipe.into(),
+		5 => K::UnexpectedEof.into(),
+		6 => K::PermissionDenied.into(),
+		7 => K::NotConnected.into(),
+		_ => std::io::Error::new(K::UnexpectedEof, READ_FAULT_TEXT),
+	}
 }
 
 impl std::io::Read for PlainFault {
 	fn read(&mut self, buf: &mut [u8]) -> std::io::Result<usize> {
 		if self.inner.pos >= self.at {
-			return Err(if self.os { std::io::Error::from_raw_os_error(5) } else { std::io::ErrorKind::TimedOut.into() });
+			return Err(plain_error(self.flavour));
 		}
 		let room = self.at - self.inner.pos;
 		let n = buf.len().min(room);
@@ -98,8 +134,6 @@ impl std::io::Read for PlainFault {
 }
 
 fn plain_faults(out: &mut Out, items: &[(Fmt, Vec<u8>)], thorough: bool) {
-	let want_os = std::io::Error::from_raw_os_error(5).to_string();
-	let want_kind = std::io::Error::from(std::io::ErrorKind::TimedOut).to_string();
 	for (idx, (f, input)) in items.iter().enumerate() {
 		if !thorough && idx % 3 != 0 {
 			continue;
@@ -110,14 +144,18 @@ fn plain_faults(out: &mut Out, items: &[(Fmt, Vec<u8>)], thorough: bool) {
 				continue;
 			}
 			for k in 0..=input.len() {
-				for os in [true, false] {
+				for flavour in [0u8, 1, 2, 3, 4, 5, 6, 7, 100] {
+					if !thorough && flavour > 1 && (k + flavour as usize + idx) % 3 != 0 {
+						continue;
+					}
+					let os = flavour == 0;
 					let mut w = FaultWriter::new(None, vec![]);
 					let r = catch(|| {
-						let reader = PlainFault { inner: SchedReader::new(input, vec![], true, None), at: k, os };
+						let reader = PlainFault { inner: SchedReader::new(input, vec![], true, None), at: k, flavour };
 						xt::translate_reader(reader, from.map(Fmt::xt), xt::Format::Json, &mut w)
 					});
-					let want = if os { &want_os } else { &want_kind };
-					out.eval("reader_fault_plain_error", &format!("{}{:?}{k}{os}", hex(input), from.map(Fmt::name)), true);
+					let want = &plain_error(flavour).to_string();
+					out.eval("reader_fault_plain_error", &format!("{}{:?}{k}{flavour}", hex(input), from.map(Fmt::name)), true);
 					let problem = match &r {
 						Err(p) => Some(format!("panicked: {p}")),
 						Ok(Ok(())) => Some("returned success".to_string()),
@@ -128,7 +166,7 @@ fn plain_faults(out: &mut Out, items: &[(Fmt, Vec<u8>)], thorough: bool) {
 						out.fail(
 							"reader_fault",
 							"",
-							format!("input {} from={} to=json, reader failing with {} once {k} bytes were delivered: {p}", hex(input), from.map(Fmt::name).unwrap_or("detect"), if os { "an OS error (EIO)" } else { "a bare ErrorKind::TimedOut" }),
+							format!("input {} from={} to=json, reader failing with {} once {k} bytes were delivered: {p}", hex(input), from.map(Fmt::name).unwrap_or("detect"), if os { "an OS error (EIO)".to_string() } else { format!("the error {:?} ({:?})", plain_error(flavour).to_string(), plain_error(flavour).kind()) }),
 						);
 					}
 				}
